@@ -492,7 +492,7 @@ func refPacketsEqual(a, b refPacket) bool {
 // ---------------------------------------------------------------------------
 // generators of reference packets (shared by several checks)
 
-var refTopicLevels = []string{"a", "b", "c", "sensor", "日本", "é", "x y", "A", "0"}
+var refTopicLevels = []string{"a", "b", "c", "sensor", "日本", "é", "x y", "A", "0", "r\uFFFDr", "\uFFFC", "\U0001F600"}
 
 func refGenTopic(rt *rapid.T, label string) string {
 	n := rapid.IntRange(1, 4).Draw(rt, label+"Depth")
